@@ -65,7 +65,7 @@ def enc_gb(g) -> str:
 
 def enc_idx(s) -> str:
     if isinstance(s, int):
-        return f"i:{s}"
+        return f"i:{int(s)}"  # bool is an int
     return f"s:{opt_s(s.start)}:{opt_s(s.stop)}"
 
 
@@ -389,7 +389,7 @@ class Ops:
         self.GB, self.GCP, self.Affine, self.TNI = mods
 
     # each returns (line_tail, call, contract) ; contract(cx, g, g2) evaluates oracles
-    def gen(self, op, g, rng, exact):
+    def gen(self, op, g, rng, exact, fixed=None):
         GB, Affine = self.GB, self.Affine
         ny, nx = map(int, g.shape)
         nmax = max(ny, nx)
@@ -403,10 +403,10 @@ class Ops:
                 hi = rng.choice([None, rng.randint(-n - 2, n + 2)])
                 return slice(lo, hi)
             if op == "crop1":
-                sy = gidx(ny)
+                sy = gidx(ny) if fixed is None else fixed[0]
                 tail, roi, rois = enc_idx(sy), sy, (sy, slice(None))
             else:
-                sy, sx = gidx(ny), gidx(nx)
+                sy, sx = (gidx(ny), gidx(nx)) if fixed is None else fixed
                 tail, roi, rois = f"{enc_idx(sy)} {enc_idx(sx)}", (sy, sx), (sy, sx)
 
             def contract(cx, g, g2, args):
@@ -418,15 +418,19 @@ class Ops:
                 check_contract(cx, op, g, g2, args, T=fa_tr(selx[0], sely[0]), shape=(sely[1], selx[1]))
             return tail, (lambda: g[roi]), contract
         if op == "pad":
-            px = rng.randint(-3, 9)
-            py = rng.choice([None, rng.randint(-3, 9)])
+            px = rng.choice([0, 0, rng.randint(-3, 9), rng.randint(1, 5)])
+            py = rng.choice([None, 0, 0, rng.randint(-3, 9)])
+            if fixed is not None:
+                px, py = fixed
             pyv = px if py is None else py
-            return (f"{px} {opt_s(py)}", (lambda: g.pad(px, py)),
+            return (f"{int(px)} {opt_s(py, lambda v: str(int(v)))}", (lambda: g.pad(px, py)),
                     lambda cx, g, g2, args: check_contract(cx, op, g, g2, args, T=fa_tr(-px, -pyv),
                                                            shape=(ny + 2 * pyv, nx + 2 * px)))
         if op == "padwh":
             ax = rng.choice([1, 2, 3, 4, 5, 7, 8, 16, 16, 32, 0, -4])
             ay = rng.choice([None, None, 1, 3, 8, 16, 0])
+            if fixed is not None:
+                ax, ay = fixed
             ayv = ax if ay is None else ay
 
             def contract(cx, g, g2, args):
@@ -437,7 +441,7 @@ class Ops:
                     check_contract(cx, op, g, g2, args)
             return f"{ax} {opt_s(ay)}", (lambda: g.pad_wh(ax, ay)), contract
         if op == "resize":
-            s2 = (rng.randint(0, 70), rng.randint(0, 70))
+            s2 = (rng.randint(0, 70), rng.randint(0, 70)) if fixed is None else fixed
             f = rng.choice([g.crop, g.expand])
             return (f"{s2[0]} {s2[1]}", (lambda: f(s2)),
                     lambda cx, g, g2, args: check_contract(cx, op, g, g2, args, shape=s2))
@@ -446,6 +450,12 @@ class Ops:
                 tx, ty = rng.randint(-512, 512) / 8.0, rng.randint(-512, 512) / 8.0
             else:
                 tx, ty = rng.uniform(-100, 100), rng.uniform(-100, 100)
+            if rng.random() < 0.15:
+                tx = 0.0
+            elif rng.random() < 0.15:
+                ty = 0
+            if fixed is not None:
+                tx, ty = fixed
             return (f"{frac_s(tx)} {frac_s(ty)}", (lambda: g.translate_pix(tx, ty)),
                     lambda cx, g, g2, args: check_contract(cx, op, g, g2, args, T=fa_tr(F(tx), F(ty)), shape=(ny, nx)))
         if op in ("left", "right", "top", "bottom"):
@@ -460,7 +470,7 @@ class Ops:
                     lambda cx, g, g2, args: check_contract(cx, op, g, g2, args, T=(F(1), F(0), F(0), F(0), F(-1), F(ny)), shape=(ny, nx)))
         if op == "rot":
             if exact:
-                deg = rng.choice([0, 90, 180, 270, -90, -180, 360, 450, -270])
+                deg = rng.choice([0, 90, 180, 270, -90, -180, 360, 450, -270]) if fixed is None else fixed[0]
                 c, s = {0: (1, 0), 90: (0, 1), 180: (-1, 0), 270: (0, -1)}[deg % 360]
                 tail = f"{c} {s}"
             else:
@@ -527,6 +537,8 @@ class Ops:
                     s_ = rng.choice([v for v in (ny, nx) if v > 0])
                     k_ = rng.randint(1, 3 * s_)
                     f = float(F(s_) / (F(k_) + near_delta(rng)))
+            if fixed is not None:
+                f = fixed[0]
 
             def contract(cx, g, g2, args):
                 if f <= 0:
@@ -560,6 +572,8 @@ class Ops:
                     s2 = (ny, nx * 2)
             else:
                 s2 = (rng.randint(1, 3 * max(ny, 1)), rng.randint(1, 3 * max(nx, 1)))
+            if fixed is not None:
+                s2 = fixed
 
             def contract(cx, g, g2, args):
                 check_contract(cx, op, g, g2, args, T=fa_sc(F(nx) / F(s2[1]), F(ny) / F(s2[0])), shape=s2)
@@ -583,6 +597,8 @@ class Ops:
                     # float target: s*n/nmax just beside an integer on the shorter side
                     s_ = max(1, min(ny, nx))
                     n = float((F(rng.randint(1, 2 * s_)) + near_delta(rng)) * nmax / s_)
+            if fixed is not None:
+                n = fixed[0]
 
             def contract(cx, g, g2, args):
                 if n <= 0 or nmax <= 0:
@@ -694,6 +710,10 @@ class Ops:
                     rr_ = g.resolution
                     xb = float((F(rng.randint(0, 6)) + F(0.1) + near_delta(rng)) * abs(F(rr_.x)))
                     yb = rng.choice([None, float((F(rng.randint(0, 6)) + F(0.1) + near_delta(rng)) * abs(F(rr_.y)))])
+            if not exact and rng.random() < 0.2:
+                xb, yb = rng.choice([(0.0, yb), (xb, 0.0), (0, None), (xb, 0)])
+            if fixed is not None:
+                xb, yb = fixed
             ybv = xb if yb is None else yb
 
             def contract(cx, g, g2, args):
@@ -726,9 +746,9 @@ ALL_OPS = ["crop1", "crop2", "pad", "padwh", "resize", "tpix", "left", "right", 
            "rot", "cpix", "mul", "rmul", "zout", "ztos", "zton", "S:zton", "ztor", "sdown", "buf"]
 
 
-def run_op(R: Run, ops: Ops, cx: Ctx, op: str, g, corr: bool, cls: str = ""):
+def run_op(R: Run, ops: Ops, cx: Ctx, op: str, g, corr: bool, cls: str = "", fixed=None):
     """one op on one geobox: correspondence line (exact stream) + oracle on the real output"""
-    gen = ops.gen(op, g, R.rng, cx.exact)
+    gen = ops.gen(op, g, R.rng, cx.exact, fixed)
     if gen is None:
         return None
     tail, call, contract = gen
@@ -1273,6 +1293,390 @@ def check_accessors(cx: Ctx, g, gcp=None, only=None):
             R.oracle(ok, "acc-alias-" + name, case, f"odc.geo.geobox.{name}(gbox, ...) differs from the method", trivial=True)
 
 
+# ------------------------------------------------------------------ falsy-but-meaningful option values
+FALSY_OPTIONS = {
+    # op: list of explicit argument tuples; 0 / 0.0 / False in EACH position independently, next to None
+    "pad": [(3, 0), (0, 3), (0, 0), (3, None), (0, None), (-2, 0), (2, False), (False, 2), (1, 1)],
+    "padwh": [(4, None), (4, 1), (1, 4), (1, None), (4, 0), (0, 4), (0, None)],
+    "resize": [(0, 5), (5, 0), (0, 0), (3, 4)],
+    "tpix": [(0, 3), (3, 0), (0.0, -2.5), (-2.5, 0.0), (0, 0), (False, 1)],
+    "rot": [(0,), (0.0,), (360,), (90,), (-0.0,)],
+    "zout": [(1,), (1.0,), (True,), (0,), (0.0,), (2,)],
+    "buf": "special",
+    "crop1": [(0,), (slice(0, 0),), (slice(None, 0),), (slice(0, None),), (slice(0, 1),), (False,), (-1,), (slice(-1, None),)],
+    "crop2": [(0, 0), (0, slice(None)), (slice(None), 0), (slice(0, 0), slice(None)), (slice(None), slice(0, 0)),
+              (slice(0, 1), 0), (0, slice(0, 1)), (-1, 0), (0, -1), (slice(1, None), slice(0, None))],
+}
+
+
+def falsy_sweep(R: Run, ops: Ops, cxE: Ctx, cxF: Ctx):
+    GB, GCP, Affine = ops.GB, ops.GCP, ops.Affine
+    bases = [
+        GB.GeoBox((5, 7), Affine(2.0, 0.0, 100.0, 0.0, -2.0, 50.0), "EPSG:3857"),
+        GB.GeoBox((4, 1), Affine(-0.5, 0.0, 3.25, 0.0, 0.25, -7.0), None),
+        GB.GeoBox((3, 6), Affine(0.0, 4.0, 10.0, -4.0, 0.0, 20.0), "EPSG:4326"),
+        GB.GeoBox((6, 5), Affine(3.0, -4.0, 7.5, 4.0, 3.0, -2.25), "EPSG:32633"),
+        GB.GeoBox((2, 9), Affine(1.0, 0.5, 0.0, 0.0, -1.0, 8.0), None),
+    ]
+    for g in bases:
+        ny, nx = map(int, g.shape)
+        for op, optl in FALSY_OPTIONS.items():
+            if optl == "special":
+                r = abs(float(g.resolution.x))
+                optl = [(0, None), (0.0, 2 * r), (2 * r, 0), (2 * r, 0.0), (0, 0), (2 * r, None), (False, r)]
+            for fixed in optl:
+                run_op(R, ops, cxE, op, g, True, "falsy", fixed=fixed)
+        run_op(R, ops, cxE, "ztos", g, True, "falsy", fixed=(ny, nx))
+        run_op(R, ops, cxE, "zton", g, True, "falsy", fixed=(max(ny, nx),))
+        run_op(R, ops, cxE, "mul", g, True, "falsy")
+    # GCP geoboxes: fresh box and a cropped view, affine and distorted control points
+    for B, aff in ((Affine(30.0, 0, 5e5, 0, -30.0, 6e6), True), (Affine(24.0, -18.0, 5e5, -18.0, -24.0, 6e6), True),
+                   (Affine(30.0, 3.0, 5e5, -2.0, -15.0, 6e6), False)):
+        mapping = build_gcp_mapping(GCP, 12, 16, B, aff)
+        gctx = {"mapping": mapping, "B": fa(B) if aff else None, "shape0": (12, 16), "desc": f"12 16 {enc_aff(B)} {int(aff)}"}
+        g0 = GCP.GCPGeoBox((12, 16), mapping)
+        for g in (g0, g0[2:9, 3:11]):
+            ny, nx = map(int, g.shape)
+            for op in ("pad", "padwh", "zout", "crop1", "crop2"):
+                for fixed in FALSY_OPTIONS[op]:
+                    g2 = gcp_step(R, ops, cxE, cxF, g, op, gctx, fixed=fixed)
+                    if g2 is not None and min(g2.shape) > 0 and op == "pad":
+                        check_accessors(cxF, g2, gctx, only=("pix2wld", "approx", "extent"))
+            gcp_step(R, ops, cxE, cxF, g, "ztos", gctx, fixed=(ny, nx))
+            gcp_step(R, ops, cxE, cxF, g, "zton", gctx, fixed=(max(ny, nx),))
+
+
+# ------------------------------------------------------------------ index / region kinds of __getitem__
+def index_kind_lines(R: Run, GB, GCP, Affine):
+    """probe gbox[<kind>] for every kind of index object on GeoBox and GCPGeoBox: the outcome (accepted / error
+    class) must be the one the model's table lists; a kind that starts / stops being accepted is a break"""
+    from odc.geo import geom as G
+    g = GB.GeoBox((10, 20), Affine(2, 0, 100, 0, -2, 50), "epsg:3857")
+    w = g[2:5, 3:9]
+    mapping = build_gcp_mapping(GCP, 10, 20, g.affine, True, "epsg:3857")
+    gc = GCP.GCPGeoBox((10, 20), mapping)
+    other = w.extent.to_crs("epsg:4326")
+    cands = {
+        "int": 3, "np.int64": np.int64(3), "bool": True, "float": 3.0, "slice": slice(2, 5), "slice-step1": slice(2, 5, 1),
+        "slice-step2": slice(2, 8, 2), "tuple2-slices": (slice(2, 5), slice(3, 9)), "tuple2-ints": (2, 3),
+        "tuple2-mixed": (2, slice(3, 9)), "tuple1": (slice(2, 5),), "tuple3": (1, 2, 3), "list2": [slice(2, 5), slice(3, 9)],
+        "ellipsis": Ellipsis, "none": None, "str": "a", "ndarray": np.arange(3),
+        "Geometry-same-crs": w.extent, "Geometry-no-crs": G.box(3, 2, 9, 5, None), "Geometry-other-crs": other,
+        "Geometry-point": G.point(110, 40, "epsg:3857"), "Geometry-line": G.line([(110, 40), (120, 35)], "epsg:3857"),
+        "Geometry-multipolygon": G.multipolygon([[[(110, 40), (120, 40), (120, 35), (110, 40)]]], "epsg:3857"),
+        "BoundingBox-same-crs": w.boundingbox, "BoundingBox-no-crs": G.BoundingBox(3, 2, 9, 5, None),
+        "BoundingBox-other-crs": other.boundingbox, "GeoBox-window": w,
+        "GeoBox-other-grid": GB.GeoBox((3, 4), Affine(3, -1, 108, 1, 3, 36), "epsg:3857"),
+        "GeoBox-other-crs": GB.GeoBox((3, 3), Affine(2e-5, 0, other.boundingbox.left, 0, -2e-5, other.boundingbox.top), "epsg:4326"),
+        "GCPGeoBox": gc[2:5, 3:9],
+    }
+    for tname, tgt in (("GeoBox", g), ("GCPGeoBox", gc)):
+        for k, v in cands.items():
+            def fn():
+                o = tgt[v]
+                assert type(o) is type(tgt)
+                return "ok"
+            R.corr(f"c02 idxkind {k}", fn, sig=f"index-kind|{tname}")
+
+
+_TRANSFORMERS = {}
+WINDOW_NOISE_KEY = "window-of-self-grows-by-float-noise"
+
+
+def _transformer(src, dst):
+    import pyproj
+    key = (str(src), str(dst))
+    if key not in _TRANSFORMERS:
+        _TRANSFORMERS[key] = pyproj.Transformer.from_crs(str(src), str(dst), always_xy=True)
+    return _TRANSFORMERS[key]
+
+
+def densify_ring(pts, n):
+    out = []
+    for (x0, y0), (x1, y1) in zip(pts[:-1], pts[1:]):
+        for k in range(n):
+            t = k / n
+            out.append((x0 + (x1 - x0) * t, y0 + (y1 - y0) * t))
+    out.append(pts[-1])
+    return out
+
+
+def region_vertices(roi):
+    """(vertices in the region's own crs, crs, closed?) for Geometry / BoundingBox / GeoBoxBase"""
+    from odc.geo import geom as G
+    from odc.geo.geobox import GeoBoxBase
+    if isinstance(roi, GeoBoxBase):
+        ny, nx = map(int, roi.shape)
+        if getattr(roi, "linear", True):
+            A = fa(roi._affine)
+            pts = [tuple(float(v) for v in fa_apply(A, (F(x), F(y)))) for x, y in [(0, 0), (0, ny), (nx, ny), (nx, 0), (0, 0)]]
+        else:
+            pts = [tuple(p) for p in roi.extent.exterior.points]
+        return pts, roi.crs, True
+    if isinstance(roi, G.BoundingBox):
+        l, b, r, t = roi.bbox
+        return [(l, b), (l, t), (r, t), (r, b), (l, b)], roi.crs, True
+    gg = roi.geom
+    if gg.geom_type == "Polygon":
+        return [tuple(p[:2]) for p in gg.exterior.coords], roi.crs, True
+    if gg.geom_type in ("Point", "LineString"):
+        return [tuple(p[:2]) for p in gg.coords], roi.crs, False
+    pts = []
+    for part in gg.geoms:
+        pts += [tuple(p[:2]) for p in (part.exterior.coords if part.geom_type == "Polygon" else part.coords)]
+    return pts, roi.crs, False
+
+
+def region_oracle(cx: Ctx, g, roi, kind, got, gctx=None):
+    """two-sided, in pixels of the parent: gbox[region] is the smallest whole-pixel window that contains the region's
+    pixel-space bounding box, clipped to the parent, at least one pixel; for a window of the parent: the window"""
+    R = cx.R
+    ny, nx = map(int, g.shape)
+    A = fa(g._affine)
+    det = A[0] * A[4] - A[1] * A[3]
+    pts, rcrs, closed = region_vertices(roi)
+    desc = {"kind": kind, "crs": crs_tag(rcrs), "pts": [f"{frac_s(x)};{frac_s(y)}" for x, y in pts][:12]}
+    case = {"op": "region", "gbox": enc_gb(g), "args": desc}
+    if det == 0:
+        return
+    other_crs = rcrs is not None and g.crs is not None and rcrs != g.crs
+    slack_px = F(0)
+    if rcrs is None:
+        mp = [(F(float(x)), F(float(y))) for x, y in pts]  # already pixel coordinates
+        if gctx is not None:
+            mp = None
+    if rcrs is not None or (gctx is not None and rcrs is None):
+        if other_crs:
+            dense = densify_ring(pts, 24) if len(pts) > 1 else pts
+            tr = _transformer(rcrs, g.crs)
+            wpts = [tr.transform(x, y) for x, y in dense]
+            slack_px = F(1)
+        else:
+            wpts = pts
+        if gctx is None:
+            # exact inverse on the (float) vertices the code is given
+            inv = (A[4] / det, -A[1] / det, None, -A[3] / det, A[0] / det, None)
+            mp = []
+            for x, y in wpts:
+                dx, dy = F(float(x)) - A[2], F(float(y)) - A[5]
+                mp.append((inv[0] * dx + inv[1] * dy, inv[3] * dx + inv[4] * dy))
+        elif rcrs is not None:
+            mp = []
+            for x, y in wpts:
+                q = g.wld2pix(float(x), float(y))
+                mp.append((F(float(q[0])), F(float(q[1]))))
+            slack_px = max(slack_px, F(1))  # fit error of the inverse polynomial
+        else:
+            mp = [(F(float(x)), F(float(y))) for x, y in pts]
+    lo = (min(p[0] for p in mp), min(p[1] for p in mp))
+    hi = (max(p[0] for p in mp), max(p[1] for p in mp))
+    if hi[0] <= 0 or hi[1] <= 0 or lo[0] >= nx or lo[1] >= ny:
+        return  # region does not meet the parent: nothing documented
+    # the view must be a whole-pixel window of the parent
+    A2 = fa(got._affine)
+    T = fa_mul((A[4] / det, -A[1] / det, (A[1] * A[5] - A[4] * A[2]) / det, -A[3] / det, A[0] / det, (A[3] * A[2] - A[0] * A[5]) / det), A2)
+    tx, ty = T[2], T[5]
+    okwin = all(abs(T[i] - v) <= F(1, 10**9) for i, v in ((0, 1), (1, 0), (3, 0), (4, 1))) and \
+        abs(tx - round(tx)) <= F(1, 10**6) and abs(ty - round(ty)) <= F(1, 10**6) and got.crs == g.crs
+    R.oracle(okwin, "region-not-a-window", case, f"gbox[{kind}] is not a whole-pixel window of the parent (pixel map {tuple(map(float, T))})")
+    if not okwin:
+        return
+    tx, ty = round(tx), round(ty)
+    ny2, nx2 = map(int, got.shape)
+    # noise allowance: the code sees pixel coordinates within ~1e-9 px (conditioning) of these
+    smin = abs(det) / max(abs(A[0]) + abs(A[1]) + abs(A[3]) + abs(A[4]), F(1, 10**300))
+    eps = F(1, 10**9) * (1 + world_scale(A, (ny, nx)) / max(smin, F(1, 10**300)) / 10**3) + slack_px
+
+    def side_ok(got_lo, got_hi, lo_, hi_, n):
+        ok_lo = any(got_lo == max(0, math.floor(v)) for v in (lo_, lo_ - eps, lo_ + eps))
+        want_hi = {min(n, math.ceil(v)) for v in (hi_, hi_ - eps, hi_ + eps)}
+        want_lo = {max(0, math.floor(v)) for v in (lo_, lo_ - eps, lo_ + eps)}
+        if slack_px:
+            want_hi |= {v + d for v in list(want_hi) for d in (-1, 1)}
+            want_lo |= {v + d for v in list(want_lo) for d in (-1, 1)}
+        cands = {(a, max(1, b - a)) for a in want_lo for b in want_hi}
+        return (got_lo, got_hi - got_lo) in cands
+    ok = side_ok(tx, tx + nx2, lo[0], hi[0], nx) and side_ok(ty, ty + ny2, lo[1], hi[1], ny)
+    R.oracle(ok, "region-window", case,
+             f"{type(g).__name__}{(ny, nx)}[{kind}] = rows {ty}:{ty + ny2}, cols {tx}:{tx + nx2}; the region spans pixel rows "
+             f"{float(lo[1]):.6f}..{float(hi[1]):.6f}, cols {float(lo[0]):.6f}..{float(hi[0]):.6f} of the parent",
+             sig=f"region|{kind}")
+
+
+def gen_geo_parent(rng, GB, Affine, tag=None):
+    """geographically valid parent near 15E 52N in one of the known CRSs (so that other-CRS regions make sense)"""
+    tag = tag or rng.choice([1, 2, 3])
+    lon, lat = rng.uniform(13.5, 16.5), rng.uniform(47, 57)
+    x, y = _transformer("EPSG:4326", CRS_TAGS[tag]).transform(lon, lat)
+    r = rng.choice([10.0, 30.0, 100.0, rng.uniform(5, 200)])
+    if tag == 1:
+        r = r / 111000.0
+    kind = rng.choice(["st", "rot", "rot", "shear", "rot90", "mirror"])
+    S = Affine.scale(r, -r * rng.choice([1, 1, rng.uniform(0.5, 2)]))
+    L = {"st": S, "rot": Affine.rotation(rng.uniform(-180, 180)) * S, "shear": Affine.shear(rng.uniform(-30, 30), rng.uniform(-20, 20)) * S,
+         "rot90": Affine.rotation(rng.choice([90, 180, 270])) * S, "mirror": Affine.scale(-1, -1) * S}[kind]
+    return GB.GeoBox((rng.randint(8, 60), rng.randint(8, 60)), Affine.translation(x, y) * L, CRS_TAGS[tag]), kind
+
+
+def region_stream(R: Run, ops: Ops, cxE: Ctx, cxF: Ctx):
+    from odc.geo import geom as G
+    GB, GCP, Affine = ops.GB, ops.GCP, ops.Affine
+    rng = R.rng
+
+    def window(g):
+        ny, nx = map(int, g.shape)
+        y0 = rng.randint(0, ny - 1)
+        x0 = rng.randint(0, nx - 1)
+        return g[y0:rng.randint(y0 + 1, ny), x0:rng.randint(x0 + 1, nx)]
+
+    def pix_poly(g, crs_less):
+        ny, nx = map(int, g.shape)
+        k = rng.choice([1, 2, 3, 4, 5])
+        pp = [(rng.uniform(-2, nx + 2), rng.uniform(-2, ny + 2)) for _ in range(k)]
+        if rng.random() < 0.4:
+            pp = [(float(rng.randint(0, nx)), float(rng.randint(0, ny))) for _ in range(k)]  # on pixel edges
+        if not crs_less:
+            pp = [g.pix2wld(x, y) for x, y in pp]
+        crs = None if crs_less else g.crs
+        if k == 1:
+            return G.point(pp[0][0], pp[0][1], crs)
+        if k == 2:
+            return G.line(pp, crs)
+        poly = G.polygon(pp + [pp[0]], crs)
+        return poly if poly.is_valid else poly.convex_hull
+
+    def other_grid(g):
+        ny, nx = map(int, g.shape)
+        cx_, cy_ = g.pix2wld(rng.uniform(0, nx), rng.uniform(0, ny))
+        r = abs(float(g.resolution.x)) * rng.uniform(0.5, 3)
+        A2 = Affine.translation(cx_, cy_) * Affine.rotation(rng.uniform(-180, 180)) * Affine.scale(r, -r)
+        return GB.GeoBox((rng.randint(1, 12), rng.randint(1, 12)), A2, g.crs)
+
+    # ---- exact stream (model): parents with a dyadic inverse, same-crs / pixel-plane regions with dyadic vertices
+    for _ in range(R.pick(150, 1500)):
+        sx, sy = rng.choice([-1, 1]) * pow2(rng, -3, 3), rng.choice([-1, 1]) * pow2(rng, -3, 3)
+        A = Affine(sx, 0, rng.randint(-800, 800) / 8.0, 0, sy, rng.randint(-800, 800) / 8.0) if rng.random() < 0.6 else \
+            Affine(0, sy, rng.randint(-800, 800) / 8.0, sx, 0, rng.randint(-800, 800) / 8.0)
+        tag = rng.choice([1, 2, 3])
+        g = GB.GeoBox((rng.randint(1, 20), rng.randint(1, 20)), A, CRS_TAGS[tag])
+        ny, nx = map(int, g.shape)
+        kind = rng.choice(["GeoBox-window", "GeoBox-window", "Geometry-same-crs", "Geometry-no-crs", "BoundingBox-same-crs",
+                           "BoundingBox-no-crs", "GeoBox-no-crs"])
+        k = rng.choice([1, 2, 3, 4])
+        pp = [(rng.randint(-16, 8 * nx + 16) / 8.0, rng.randint(-16, 8 * ny + 16) / 8.0) for _ in range(max(k, 3) if "Bounding" in kind else k)]
+        if kind == "GeoBox-window":
+            roi = window(g)
+            line = f"c02 cropGB {enc_gb(g)} {enc_gb(roi)}"
+        elif kind == "GeoBox-no-crs":
+            roi = GB.GeoBox((rng.randint(1, 5), rng.randint(1, 5)), Affine(pow2(rng, -1, 1), 0, rng.randint(0, 8 * nx) / 8.0, 0,
+                                                                       pow2(rng, -1, 1), rng.randint(0, 8 * ny) / 8.0), None)
+            line = f"c02 cropGB {enc_gb(g)} {enc_gb(roi)}"
+        else:
+            crs_less = "no-crs" in kind
+            wp = pp if crs_less else [g.pix2wld(x, y) for x, y in pp]
+            crs = None if crs_less else g.crs
+            if "Bounding" in kind:
+                xs, ys = [p[0] for p in wp], [p[1] for p in wp]
+                roi = G.BoundingBox(min(xs), min(ys), max(xs), max(ys), crs)
+            elif k == 1:
+                roi = G.point(wp[0][0], wp[0][1], crs)
+            elif k == 2:
+                roi = G.line(wp, crs)
+            else:
+                roi = G.polygon(wp + [wp[0]], crs)
+            vs, _, _ = region_vertices(roi)
+            line = f"c02 cropV {enc_gb(g)} {'T' if crs_less else 'F'} " + list_s([f"{frac_s(x)};{frac_s(y)}" for x, y in vs])
+        res = []
+
+        def fn():
+            o = g[roi]
+            res.append(o)
+            return enc_gb(o)
+        R.corr(line, fn, sig=f"region|{kind}")
+        if res and kind != "GeoBox-no-crs":
+            region_oracle(cxE, g, roi, kind, res[0])
+        elif res:
+            region_oracle(cxE, g, roi.extent, kind, res[0])
+
+    # ---- float stream: every region kind, same and other crs, axis-aligned and rotated / sheared on BOTH sides
+    for _ in range(R.pick(260, 2600)):
+        g, gk = gen_geo_parent(rng, GB, Affine)
+        kind = rng.choice(["GeoBox-window", "GeoBox-window", "GeoBox-other-grid", "Geometry-same-crs", "Geometry-no-crs",
+                           "BoundingBox-same-crs", "BoundingBox-no-crs", "Geometry-other-crs", "BoundingBox-other-crs",
+                           "GeoBox-other-crs", "Geometry-window-extent"])
+        try:
+            if kind == "GeoBox-window":
+                roi = window(g)
+            elif kind == "Geometry-window-extent":
+                roi = window(g).extent
+            elif kind == "GeoBox-other-grid":
+                roi = other_grid(g)
+            elif kind in ("Geometry-same-crs", "Geometry-no-crs"):
+                roi = pix_poly(g, kind.endswith("no-crs"))
+            elif kind in ("BoundingBox-same-crs", "BoundingBox-no-crs"):
+                roi = pix_poly(g, kind.endswith("no-crs")).boundingbox
+            else:
+                ocrs = CRS_TAGS[rng.choice([t for t in (1, 2, 3) if CRS_TAGS[t] != str(g.crs).upper()])]
+                base = rng.choice([window(g), other_grid(g)])
+                if kind == "GeoBox-other-crs":
+                    # a small rotated grid in the other crs placed over the parent
+                    ny, nx = map(int, g.shape)
+                    wx, wy = g.pix2wld(rng.uniform(0, nx), rng.uniform(0, ny))
+                    ox, oy = _transformer(g.crs, ocrs).transform(wx, wy)
+                    r = abs(float(g.resolution.x)) * rng.uniform(0.5, 2)
+                    r = r * (111000.0 if crs_tag(g.crs) == 1 else 1.0) / (111000.0 if ocrs == CRS_TAGS[1] else 1.0)
+                    roi = GB.GeoBox((rng.randint(1, 10), rng.randint(1, 10)),
+                                    Affine.translation(ox, oy) * Affine.rotation(rng.uniform(-180, 180)) * Affine.scale(r, -r), ocrs)
+                else:
+                    pts, _, _ = region_vertices(base)
+                    tr = _transformer(g.crs, ocrs)
+                    poly = G.polygon([tr.transform(x, y) for x, y in pts], ocrs)
+                    roi = poly if kind == "Geometry-other-crs" else poly.boundingbox
+            got = g[roi]
+        except Exception as e:  # pylint: disable=broad-except
+            R.oracle(False, "region-raised", {"op": "region", "gbox": enc_gb(g), "args": {"kind": kind}}, f"{type(e).__name__}: {e}")
+            continue
+        region_oracle(cxF, g, roi, kind + "|parent-" + gk, got)
+        if kind == "GeoBox-window":
+            # In exact arithmetic g[g[roi]] == g[roi] (theorem crop_window_of_self).  In doubles the projected corners
+            # land at k +- 1e-12 px and floor/ceil add a pixel on ~2/3 of arbitrary float grids: a genuine IEEE-level
+            # defect, reported to the integrator; evaluated as a finding only once it is registered.
+            if any(k.get("key") == WINDOW_NOISE_KEY for k in R.known):
+                R.oracle(got == roi, WINDOW_NOISE_KEY, {"op": "region", "gbox": enc_gb(g), "args": {"kind": kind, "roi": enc_gb(roi)}},
+                         f"g[g[roi]] has shape {tuple(got.shape)}, g[roi] has shape {tuple(roi.shape)} (parent {gk})", trivial=True)
+            else:
+                R.count("window-of-self:" + ("same" if got == roi else "grown-by-float-noise"))
+
+    # ---- GCP parents: regions against the fitted inverse (fit-error slack of one pixel)
+    for _ in range(R.pick(40, 300)):
+        ny, nx = rng.randint(8, 30), rng.randint(8, 30)
+        B = Affine.translation(5e5, 6e6) * Affine.rotation(rng.choice([0, 0, 30, rng.uniform(-180, 180)])) * Affine.scale(30.0, -30.0)
+        aff = rng.random() < 0.6
+        mapping = build_gcp_mapping(GCP, ny, nx, B, aff)
+        gc = GCP.GCPGeoBox((ny, nx), mapping)
+        gl = GB.GeoBox((ny, nx), B, "EPSG:32633")
+        kind = rng.choice(["GeoBox-window", "Geometry-same-crs", "BoundingBox-same-crs", "Geometry-no-crs", "GCPGeoBox"])
+        try:
+            if kind == "GeoBox-window":
+                roi = window(gl)
+            elif kind == "GCPGeoBox":
+                y0, x0 = rng.randint(0, ny - 2), rng.randint(0, nx - 2)
+                roi = gc[y0:rng.randint(y0 + 1, ny), x0:rng.randint(x0 + 1, nx)]
+            elif kind == "Geometry-no-crs":
+                roi = pix_poly(gl, True)
+            else:
+                roi = pix_poly(gl, False)
+                roi = roi if kind.startswith("Geometry") else roi.boundingbox
+            got = gc[roi]
+        except Exception as e:  # pylint: disable=broad-except
+            R.oracle(False, "gcp-region-raised", {"op": "region", "gbox": enc_gb(gc), "args": {"kind": kind}}, f"{type(e).__name__}: {e}")
+            continue
+        nfail = len(R.oracle_failures)
+        region_oracle(cxF, gc, roi, "gcp|" + kind, got, {"mapping": mapping})
+        for f_ in R.oracle_failures[nfail:]:
+            f_["key"] = "gcp-" + f_["key"]
+
+
 # ------------------------------------------------------------------ main
 def run(R: Run):
     mods = _import()
@@ -1283,6 +1687,10 @@ def run(R: Run):
 
     # ---------- accessor table: every live public name is known to the model and to the checkers
     accessor_table_lines(R, GB, GCP)
+    # ---------- every accepted kind of index / region object; falsy-but-meaningful option values in each position
+    index_kind_lines(R, GB, GCP, Affine)
+    falsy_sweep(R, ops, cxE, cxF)
+    region_stream(R, ops, cxE, cxF)
 
     # ---------- chains of 2-3 view ops; every public accessor is evaluated on every VIEW of the chain
     CH_OPS = ["crop2", "crop2", "crop1", "pad", "pad", "ztos", "ztos", "zout", "flipx", "flipy", "tpix", "rot", "cpix",
@@ -1508,6 +1916,69 @@ def build_gcp_mapping(GCP, ny, nx, B, affine_gcps, crs="EPSG:32633"):
     return GCP.GCPMapping(pix, wld, crs)
 
 
+def gcp_step(R: Run, ops: Ops, cxE: Ctx, cxF: Ctx, g, op, gctx, fixed=None):
+    """one view op on a GCP geobox: correspondence on the (shape, affine, crs) triple while it stays dyadic, the
+    op's own two-sided contract, and the pixel contract through the mapping"""
+    GCP, rng = ops.GCP, R.rng
+    mapping, affine_gcps = gctx["mapping"], gctx["B"] is not None
+    B = ops.Affine(*[float(v) for v in gctx["B"]]) if affine_gcps else None
+    gen = ops.gen(op, g, rng, True, fixed)
+    if gen is None:
+        return None
+    tail, _, contract = gen
+    # re-create the call on the GCP geobox from the tail tokens
+    call = gcp_call(op, g, tail)
+    res = []
+
+    def fn():
+        o = call()
+        res.append(o)
+        return enc_gb(o)
+    # exactness: after zoom the affine may stop being dyadic; then only the oracle is used
+    dy = all((F(v).denominator & (F(v).denominator - 1)) == 0 and abs(F(v).numerator).bit_length() < 40
+             for v in tuple(g._affine)[:6])
+    line = f"c02 {op} {enc_gb(g)}" + (f" {tail}" if tail else "")
+    if dy:
+        R.corr(line, fn, sig=f"gcp|{op}")
+    else:
+        try:
+            fn()
+        except Exception:  # pylint: disable=broad-except
+            pass
+    if not res:
+        return None
+    g2 = res[0]
+    case = {"op": "gcp-" + op, "gbox": enc_gb(g), "args": tail}
+    R.oracle(isinstance(g2, GCP.GCPGeoBox) and g2._mapping is mapping and g2.crs == g.crs,
+             "gcp-view-lost-mapping", case, "GCP view does not share the mapping / crs of its parent")
+    # the op's own contract on the (shape, affine, crs) triple, exactly as for GeoBox
+    nfail = len(R.oracle_failures)
+    try:
+        contract(cxE if dy else cxF, g, g2, tail)
+    except Exception as e:  # pylint: disable=broad-except
+        R.oracle(False, f"gcp-{op}-oracle-raised", case, f"{type(e).__name__}: {e}")
+    for f_ in R.oracle_failures[nfail:]:
+        f_["key"] = "gcp-" + f_["key"]
+    # pixel contract through the (unknown) mapping: pix2wld(g2)(p) == pix2wld(g)(T p), T = A^-1 A2
+    A, A2 = fa(g._affine), fa(g2._affine)
+    det = A[0] * A[4] - A[1] * A[3]
+    if det != 0 and min(g2.shape) > 0:
+        ok = True
+        for p in sample_pix(rng, tuple(map(int, g2.shape)))[:5]:
+            q = fa_apply(A2, p)  # mapping-pixel coordinates, exact
+            w2 = g2.pix2wld(float(p[0]), float(p[1]))
+            w1 = mapping.p2w(float(q[0]), float(q[1]))
+            ok = ok and all(abs(a - b) <= 1e-9 * max(1.0, abs(b)) for a, b in zip(w2, w1))
+            if affine_gcps:
+                wb = B * (float(q[0]), float(q[1]))
+                ok = ok and all(abs(a - b) <= 1e-7 * max(1.0, abs(b)) for a, b in zip(w2, wb))
+                pp = g2.wld2pix(*w2)
+                ok = ok and all(abs(a - float(b)) <= 1e-4 * max(1.0, abs(float(b))) for a, b in zip(pp, p))
+        R.oracle(ok, "gcp-pixel-contract", case, "GCP view pix2wld differs from mapping.p2w(affine * p)",
+                 sig="gcp|" + ("affine-gcps" if affine_gcps else "distorted"))
+    return g2
+
+
 def gcp_stream(R: Run, ops: Ops, cxE: Ctx, cxF: Ctx):
     GB, GCP, Affine, TNI = ops.GB, ops.GCP, ops.Affine, ops.TNI
     rng = R.rng
@@ -1536,60 +2007,9 @@ def gcp_stream(R: Run, ops: Ops, cxE: Ctx, cxF: Ctx):
             gcp_zoom_to_res_oracle(R, g0, B)
         for step in range(3):
             op = rng.choice(["crop1", "crop2", "pad", "padwh", "zout", "ztos", "zton", "cpix"])
-            gen = ops.gen(op, g, rng, True)
-            if gen is None:
+            g2 = gcp_step(R, ops, cxE, cxF, g, op, gctx)
+            if g2 is None:
                 continue
-            tail, _, contract = gen
-            # re-create the call on the GCP geobox from the tail tokens
-            call = gcp_call(op, g, tail)
-            res = []
-
-            def fn():
-                o = call()
-                res.append(o)
-                return enc_gb(o)
-            # exactness: after zoom the affine may stop being dyadic; then only the oracle is used
-            dy = all((F(v).denominator & (F(v).denominator - 1)) == 0 and abs(F(v).numerator).bit_length() < 40
-                     for v in tuple(g._affine)[:6])
-            line = f"c02 {op} {enc_gb(g)}" + (f" {tail}" if tail else "")
-            if dy:
-                R.corr(line, fn, sig=f"gcp|{op}")
-            else:
-                try:
-                    fn()
-                except Exception:  # pylint: disable=broad-except
-                    pass
-            if not res:
-                continue
-            g2 = res[0]
-            case = {"op": "gcp-" + op, "gbox": enc_gb(g), "args": tail}
-            R.oracle(isinstance(g2, GCP.GCPGeoBox) and g2._mapping is mapping and g2.crs == g.crs,
-                     "gcp-view-lost-mapping", case, "GCP view does not share the mapping / crs of its parent")
-            # the op's own contract on the (shape, affine, crs) triple, exactly as for GeoBox
-            nfail = len(R.oracle_failures)
-            try:
-                contract(cxE if dy else cxF, g, g2, tail)
-            except Exception as e:  # pylint: disable=broad-except
-                R.oracle(False, f"gcp-{op}-oracle-raised", case, f"{type(e).__name__}: {e}")
-            for f_ in R.oracle_failures[nfail:]:
-                f_["key"] = "gcp-" + f_["key"]
-            # pixel contract through the (unknown) mapping: pix2wld(g2)(p) == pix2wld(g)(T p), T = A^-1 A2
-            A, A2 = fa(g._affine), fa(g2._affine)
-            det = A[0] * A[4] - A[1] * A[3]
-            if det != 0 and min(g2.shape) > 0:
-                ok = True
-                for p in sample_pix(rng, tuple(map(int, g2.shape)))[:5]:
-                    q = fa_apply(A2, p)  # mapping-pixel coordinates, exact
-                    w2 = g2.pix2wld(float(p[0]), float(p[1]))
-                    w1 = mapping.p2w(float(q[0]), float(q[1]))
-                    ok = ok and all(abs(a - b) <= 1e-9 * max(1.0, abs(b)) for a, b in zip(w2, w1))
-                    if affine_gcps:
-                        wb = B * (float(q[0]), float(q[1]))
-                        ok = ok and all(abs(a - b) <= 1e-7 * max(1.0, abs(b)) for a, b in zip(w2, wb))
-                        pp = g2.wld2pix(*w2)
-                        ok = ok and all(abs(a - float(b)) <= 1e-4 * max(1.0, abs(float(b))) for a, b in zip(pp, p))
-                R.oracle(ok, "gcp-pixel-contract", case, "GCP view pix2wld differs from mapping.p2w(affine * p)",
-                         sig="gcp|" + ("affine-gcps" if affine_gcps else "distorted"))
             if min(g2.shape) <= 0 or max(g2.shape) > 4000:
                 break
             g = g2
